@@ -782,18 +782,46 @@ func runStartsEmpty(c *core.Ctx) {
 			}
 		}
 	}
+	// the dispatch function, and the methods that run it without arming the VM
+	// themselves (callFunction): a host-facing method that arms its own VM and
+	// calls one of those starts a top-level evaluation just the same
+	dispatchers := map[*ssa.Function]bool{dispatch: true}
+	for _, sf := range methods {
+		callsDispatch, arms := false, false
+		for _, b := range sf.Blocks {
+			for _, in := range b.Instrs {
+				if ci, ok := in.(ssa.CallInstruction); ok {
+					switch ci.Common().StaticCallee() {
+					case dispatch:
+						callsDispatch = true
+					case arm:
+						arms = true
+					}
+				}
+			}
+		}
+		if callsDispatch && !arms {
+			dispatchers[sf] = true
+		}
+	}
 	n := 0
 	for _, sf := range methods {
 		var armAt, dispAt ssa.Instruction
 		for _, b := range sf.Blocks {
 			for _, in := range b.Instrs {
 				if ci, ok := in.(ssa.CallInstruction); ok {
-					switch ci.Common().StaticCallee() {
-					case arm:
-						armAt = in
-					case dispatch:
+					cal := ci.Common().StaticCallee()
+					switch {
+					case cal == arm:
+						// its own VM, not one it has just made
+						if args := ci.Common().Args; len(args) > 0 && isOwnReceiver(sf, args[0]) {
+							armAt = in
+						}
+					case cal != nil && dispatchers[cal]:
 						if _, isDefer := in.(*ssa.Defer); !isDefer {
-							dispAt = in
+							if args := ci.Common().Args; len(args) > 0 && isOwnReceiver(sf, args[0]) {
+								dispAt = in
+							}
 						}
 					}
 				}
@@ -835,4 +863,31 @@ func runStartsEmpty(c *core.Ctx) {
 	if n == 0 {
 		core.Undecidedf("no VM method both arms the VM and calls the dispatch function")
 	}
+}
+
+// isOwnReceiver: v is the receiver parameter of sf, possibly read back from the
+// local it was spilled to (a receiver captured by a deferred closure).
+func isOwnReceiver(sf *ssa.Function, v ssa.Value) bool {
+	if len(sf.Params) == 0 {
+		return false
+	}
+	recv := ssa.Value(sf.Params[0])
+	if v == recv {
+		return true
+	}
+	for _, o := range core.Origins(v) {
+		if o == recv {
+			return true
+		}
+	}
+	if u, ok := v.(*ssa.UnOp); ok && u.Op == token.MUL {
+		if al, ok := u.X.(*ssa.Alloc); ok && al.Referrers() != nil {
+			for _, r := range *al.Referrers() {
+				if st, ok := r.(*ssa.Store); ok && st.Addr == ssa.Value(al) && st.Val == recv {
+					return true
+				}
+			}
+		}
+	}
+	return false
 }
